@@ -689,6 +689,35 @@ def incremental(ctx: Ctx):
         okz = okz and "open" in alts
         ctx.ob("C03.d", "MDCPDPEnv._step:free-legs", okz, sl.where, "depot -> depot legs cost nothing; node -> depot legs cost nothing only in 'open' mode: " + "; ".join(whyz),
                construct="MDCPDPEnv._step:free-legs")
+    # ---- MDCPDP: the tour that is open when the episode ends still has to drive home (problem_mode 'close').  The return of
+    #      every earlier tour is an explicit step; the last one is not, so it must be added either by _step when `done` is
+    #      reached or by _get_reward from (current_node, current_depot).
+    env = EnvA(ctx.repo, T.ALL_ENVS["MDCPDPEnv"], "MDCPDPEnv")
+    rsl = env.slot("_get_reward")
+    ctx.fn(rsl.fi)
+    ssl = env.slot("_step")
+
+    def has_return_leg(root):
+        for n in vg.walk(root):
+            is_dist = nf._fn(n) in nf.DIST_FN or (n.op == "meth" and n.args[1] == "norm")
+            if is_dist and {"locs", "current_node", "current_depot"} <= vg.cells_of(n):
+                return True
+        return False
+    in_reward = isinstance(rsl.fr.ret, vg.S) and has_return_leg(rsl.fr.ret)
+    # in _step: a leg to the depot added under the freshly computed done flag
+    in_step = False
+    acc = ssl.cell("current_length")
+    done_new = ssl.cell("done")
+    if acc is not None and done_new is not None:
+        for n in vg.walk(acc):
+            if nf._fn(n) == "torch.where" and len(n.args) == 4 and any(x is done_new or nf.strip(x) is nf.strip(done_new) for x in vg.walk(n.args[1])):
+                in_step = True
+    okc = in_reward or in_step
+    ctx.ob("C03.d", "MDCPDPEnv:last-return-leg", okc, rsl.where,
+           "the return of the last tour enters the cost " + ("in _get_reward from (current_node, current_depot)" if in_reward else "in _step when done is reached") if okc else
+           "neither _get_reward nor _step adds the way back of the tour that is open when the episode ends: _get_reward reads td['current_length'], which stops at the last delivery "
+           "(the depot appended to `actions` is never used), so in 'close' mode the last vehicle is not charged for its return while every other vehicle is",
+           construct="MDCPDPEnv._get_reward:last-return-leg")
     # ---- FFSP final reward
     env = EnvA(ctx.repo, T.ALL_ENVS["FFSPEnv"], "FFSPEnv")
     sl = env.slot("_step")
@@ -726,7 +755,11 @@ def incremental(ctx: Ctx):
                             a = nf.strip(a.args[0])
                         if a.op == "sub" and vg.is_const(a.args[1], 0):
                             a = nf.strip(a.args[0])
-                        return a.args[0] if a.op == "meth" and a.args[1] == "max" and nf.axis_is(a, 1) else None
+                        if a.op == "meth" and a.args[1] in ("max", "amax") and nf.axis_is(a, 1):
+                            return a.args[0]
+                        if nf._fn(a) in ("torch.max", "torch.amax") and nf.axis_is(a, 1):
+                            return a.args[1]
+                        return None
                     new_, old_ = max_of(neg[0]), max_of(pos[0])
                     old_ok = old_ is not None and nf.strip(old_).op == "cell0" and nf.strip(old_).args[1] == "lbs"
                     lb_alt = lbs_new.args[1] if isinstance(lbs_new, vg.S) and lbs_new.op in ("phi", "ifexp") else lbs_new
